@@ -285,8 +285,8 @@ func vfJunk(name string) []byte { return vf.OpaqueBytes(name) }
 
 // VF_Air_Complaint (C11 at machine level): n=3, t=2. The three machines run commitments, deals and responses honestly; the
 // board then carries, in participant 1's response message, a validly signed COMPLAINT (status false) against dealer 0's
-// deal. A bystander (machine 2) given that message at the master-key step must answer with the error event and must not
-// store a keyring: a round in which a dealer was accused never becomes signing-ready on an honest machine.
+// (or dealer 2's) deal. The bystander (the third machine) given that message at the master-key step must answer with the
+// error event and must not store a keyring: a round in which a dealer was accused never becomes signing-ready on an honest machine.
 func VF_Air_Complaint() {
 	n, t := 3, 2
 	round := "round-one-identifier"
@@ -316,7 +316,10 @@ func VF_Air_Complaint() {
 	}
 	accuser, accused := 1, vf.Choose("accused", 2)*2 // dealer 0 (a third party) or dealer 2 (the bystander itself)
 	for _, by := range nodes {
-		if by.id == accuser {
+		if by.id == accuser || by.id == accused {
+			// the accused dealer's own machine is not a bystander: kyber lets a dealer justify its own deal locally
+			// (DistKeyGenerator.ProcessResponse -> dealer.ProcessResponse -> ProcessJustification), so it carries on alone -
+			// dc4bc never exchanges justifications (observation recorded in DESIGN 9.6, outside C11 as stated)
 			continue
 		}
 		found := false
